@@ -44,14 +44,18 @@ def pwkill():
 class _Boundaries:
 	def __init__(self):
 		self.n = 0
+		self.how = 'kill'        # 'kill' SIGKILL | 'term' SIGTERM (default disposition unless the code installed a handler) | 'interrupt' KeyboardInterrupt (what SIGINT becomes)
 		self.kill_at = None
 		self.names = []
 		self.installed = False
 
 	def hit(self, name):
 		if self.kill_at is not None and self.n == self.kill_at:
-			os.kill(os.getpid(), signal.SIGKILL)
-			signal.pause()
+			self.kill_at = None
+			if self.how == 'interrupt':
+				raise KeyboardInterrupt()
+			os.kill(os.getpid(), signal.SIGTERM if self.how == 'term' else signal.SIGKILL)
+			signal.pause()      # a Python-level handler (if the code under test installed one) runs here and may raise
 		self.n += 1
 		self.names.append(name)
 
@@ -95,8 +99,12 @@ def _child_main(fn, args, crash, target, wfd):
 		BOUND.names = []
 		BOUND.kill_at = None
 		use_pw = target is not None and 'pwkill.so' in os.environ.get('LD_PRELOAD', '')
-		if crash is not None and crash[0] == 'h5':
+		BOUND.how = 'kill'
+		if crash is not None and crash[0] in ('h5', 'h5term', 'h5int'):
 			BOUND.kill_at = crash[1]
+			BOUND.how = {'h5': 'kill', 'h5term': 'term', 'h5int': 'interrupt'}[crash[0]]
+			if crash[0] == 'h5term':
+				signal.signal(signal.SIGTERM, signal.SIG_DFL)   # the worker's own disposition must not leak into the writer
 		if use_pw:
 			if crash is not None and crash[0] == 'sys':
 				pwkill().pwkill_arm(target.encode(), crash[1], crash[2])
@@ -117,6 +125,14 @@ def _child_main(fn, args, crash, target, wfd):
 	except BaseException as e:
 		data = pickle.dumps(dict(ok=False, exc=type(e).__name__, msg=str(e)[:500], tb=traceback.format_exc()[-1500:],
 		                         boundaries=BOUND.n))
+		if isinstance(e, (KeyboardInterrupt, SystemExit)):
+			# the process is ending the way an interpreter ends after an unhandled interrupt / sys.exit():
+			# exit handlers (h5py closes whatever is still open) run before it is gone
+			try:
+				import atexit
+				atexit._run_exitfuncs()
+			except BaseException:
+				pass
 	try:
 		os.write(wfd, struct.pack('<Q', len(data)))
 		off = 0
